@@ -145,7 +145,9 @@ def step (st : St) : List String → St × String
     let tree := if s'.loadedId != st.s.loadedId then
         (match st.dumpTrees.find? (fun p => p.1 == s'.loadedId) with | some p => p.2 | none => st.tree)
       else st.tree
-    let st' : St := { st with s := s', tree := tree, lastTree := none, dumpTrees := [] }
+    -- the loaded root is `lastSnapRoot` (what a failing insert rolls back to)
+    let st' : St := if !st.s.closed then st else
+      { st with s := s', tree := tree, lastTree := some tree, dumpTrees := [] }
     (st', s!"ok {s'.cur.ts}{diverged st'}")
   | ["get", tg, k] =>
     match target st.s tg, Bytes.ofHex k with
